@@ -523,29 +523,34 @@ func (e *Engine) emitLazy(p *partition, completions []*run, survivors *[]*run) [
 
 // emitGreedy 处理贪婪模式的完成匹配：pending 已按 startSeq 暂存（只留最长），emit 延伸
 // 终止的 startSeq（survivors 中无同 startSeq 的 run）。survivors 为空时 emit 全部（供 Flush）。
+// 起点严格按最左优先：只要更早的 startSeq 仍有在途 run（可能完成并按 SKIP 覆盖后面的起点），
+// 较晚起点的已完成匹配必须等待，否则会抢先输出并把更早的 run 裁掉。
 func (e *Engine) emitGreedy(p *partition, survivors *[]*run) []map[string]any {
 	if len(p.pending) == 0 {
 		return nil // 默认贪婪模式每事件调用：无在途匹配时短路，避免无用 map 分配
 	}
-	active := make(map[int64]bool, len(*survivors))
-	for _, r := range *survivors {
-		active[r.startSeq] = true
-	}
-	var ready []int64
-	for s := range p.pending {
-		if !active[s] && s >= p.nextStart {
-			ready = append(ready, s)
-		}
-	}
-	sort.Slice(ready, func(i, j int) bool { return ready[i] < ready[j] })
 	var emitted []map[string]any
-	for _, s := range ready {
-		if s < p.nextStart {
-			continue // 被前一轮 SKIP 推进跳过（直接守卫，与 emitLazy 一致）
+	for len(p.pending) > 0 {
+		e.prunePending(p, p.nextStart)
+		// 最早的在途起点：其之前（不含）的 pending 已延伸终止，可安全输出。
+		var minActive int64 = maxInt64
+		for _, r := range *survivors {
+			if r.startSeq < minActive {
+				minActive = r.startSeq
+			}
 		}
-		best := p.pending[s][0]
+		var next int64 = maxInt64
+		for s := range p.pending {
+			if s < next {
+				next = s
+			}
+		}
+		if next == maxInt64 || next >= minActive {
+			break
+		}
+		best := p.pending[next][0]
+		delete(p.pending, next)
 		emitted = append(emitted, e.emitOne(p, best, survivors)...)
-		delete(p.pending, s)
 	}
 	e.prunePending(p, p.nextStart)
 	return emitted
